@@ -55,7 +55,7 @@ REG = {
     },
     "C07": {
         "level": "exploration",
-        "technique": "property-based round-trip testing (rapid): Parse(Encode(v)) == v and Encode(Parse(Encode(v))) == Encode(v) for 34 message types with per-type in-domain generators; helper round trips against independent readings",
+        "technique": "property-based round-trip testing (rapid): Parse(Encode(v)) == v and Encode(Parse(Encode(v))) == Encode(v) for 34 message types with per-type in-domain generators, also through a handler object that parsed another value of the same type before; helper round trips against independent readings",
         "level_text": "Generated-input exploration with one constructive generator per two-way message type (all three 0x0100 versions, 2013/2019 0x0102, five active-safety dialects, list lengths 0..max, every terminal-parameter field by reflection plus unknown IDs). Each value is encoded, framed, decoded through the real frame decoder, parsed into a fresh receiver and compared field by field; the re-encoding must be byte-identical.",
         "level_note": "Domain restrictions derived from the parsers: strings are ASCII/GB2312 without NUL at either end, attachment file names non-empty, string parameters non-empty (a zero-length parameter is not re-emitted by the encoder), count/length fields equal to their lists, bodies <= 1023 bytes. Derived flag structs are compared in C08, not here.",
         "rule": "one rapid generator per two-way type (type drawn uniformly); non-trivial = value has >= 2 list elements, or non-ASCII text, or a non-default dialect, or a 2019 header",
@@ -98,7 +98,7 @@ REG = {
     },
     "C03": {
         "level": "exploration",
-        "technique": "property-based testing (rapid): every exported parser on raw, valid and structure-aware mutated bodies; oracle = no panic on exact-capacity input, same outcome with different bytes behind the slice, same outcome on a reused receiver, String total, watchdog for promptness; native fuzzing in the thorough tier",
+        "technique": "property-based testing (rapid): every exported parser on raw, valid and structure-aware mutated bodies; oracle = no panic on exact-capacity input, same outcome with different bytes behind the slice, same outcome on a reused receiver, the first value still equal to a fresh decode after other input was decoded into other receivers, String total, watchdog for promptness; native fuzzing in the thorough tier",
         "level_text": "Generated-input exploration of 43 decode targets (35 message types x header version x five dialects, five Su-Biao extension parsers directly and through the README meLocation pattern, jt808 Decode, jt1078 Decode). Each body is parsed four ways (exact capacity, embedded before 0x00.. and before 0xFF.., on a receiver that already parsed 0..3 other bodies) and the outcomes must coincide; a panic anywhere is a violation; a 10 s watchdog bounds each case.",
         "level_note": "Over-reads are made visible by exact-capacity slices (Go bounds-checks against capacity) and by differing trailing bytes. Promptness is a 10 s bound per case (nine orders of magnitude of slack). The meLocation outcome is the embedded T0x0200; extension structs of items absent from the message are not part of it.",
         "rule": "target drawn uniformly; body is raw bytes (0..4096), a valid encoding from the C07/C08 generators, or a mutation of one (truncate, adversarial byte/word, extend, drop, duplicate, constant tail); 0..3 prior bodies for the reused receiver; non-trivial = the body was accepted or derives from a valid encoding",
@@ -154,7 +154,7 @@ REG = {
         "technique": "invariant over histories (rapid): snapshot of every delivered message at delivery == its content after every later read and after connection cleanup, with the reader's single reused receive buffer reproduced exactly",
         "level_text": "Extractor-level: plain and fragmented histories followed by later one-frame-per-read traffic are fed through one reused 1023-byte buffer exactly as connection.reader does; after every read each earlier delivered message (ID, phone, serial, package numbers, Body, TerminalData) must equal the deep snapshot taken at delivery; finally the connection cleanup (pack.clear, clear(buffer)) runs and everything is compared again.",
         "level_note": "Socket level (TestC09Socket): a live server in a child process; read callbacks keep every *Message (optionally handing it to another goroutine, optionally sleeping up to 2 ms while the next frames arrive); at the end of the scenario - after all later traffic and after the connection closed - every kept message is compared with its delivery-time snapshot inside the child, and the replies must be the C06 replies of their own requests.",
-        "rule": "rapid histories as in C04/C05 plus 1..4 later frames; non-trivial = at least two reads follow the first delivery",
+        "rule": "rapid histories as in C04/C05 plus 1..4 later frames and 0..2 idle periods (5.5 / 7 / 61 s) after arbitrary reads, so that the re-request and expiry paths run over the open transfers; non-trivial = at least two reads follow the first delivery",
         "assumptions": [],
         "required_buckets": {"any": ["plain", "fragmented", "cleanup", "handoff", "hold_2000us", "sub_packaged", "transfer_incomplete_at_close", "re-request_sent_in_between"]},
         "parts": [
@@ -166,7 +166,7 @@ REG = {
         "level": "exploration",
         "technique": "model-based property testing (rapid) with a virtual clock: timelines of packets, clock advances and triggers against a reference model of the 5 s re-request / 60 s expiry rules; exhaustive missing-subset enumeration for N <= 8 (10 thorough)",
         "level_text": "Timelines (packets, Advance(d) with d on both sides of 5 s and 60 s, heartbeat or half-frame triggers, partial resupply, repeated rounds, two concurrent transfers, N up to 255) are run against the real packageParse with its clock shifted through the hook; after every read the set of 0x8003 messages (decoded by the reference: first packet's serial, count, ascending list) and completed deliveries must equal the model's; expired transfers must be gone.",
-        "level_note": "Advance(d) subtracts d from the recorded create/update times, which is equivalent to the wall clock moving forward because the code only compares time.Now() with those fields. Decision points closer than 0.4 s to a deadline are excluded by construction (and counted if they occur). Ambiguous readings are avoided by construction: after an advance the next inbound data is never a packet of a pending transfer.",
+        "level_note": "Advance(d) subtracts d from the recorded create/update times, which is equivalent to the wall clock moving forward because the code only compares time.Now() with those fields. Decision points closer than 0.2 s to a deadline are avoided by construction, and a case whose own execution took longer than 60 ms of real time is not judged on timing (tolerance 0.12 s; idle times of 5.25 / 5.5 / 5.9 / 5.999 s and ages of 59.7 / 60.3 s are generated deliberately). Ambiguous readings are avoided by construction: after an advance the next inbound data is never a packet of a pending transfer.",
         "rule": "rapid timelines driven by the same model the oracle uses; non-trivial = some re-request names >= 2 missing packets and an advance crosses 5 s",
         "assumptions": ["virtual clock hook is a faithful stand-in for wall-clock time (validated by the real-clock scenario in the thorough tier of the socket engine)"],
         "required_buckets": {"any": ["advance_crosses_5s", "advance_crosses_60s", "missing>=2", "rounds>=2", "two_transfers", "N>=10", "transfer_restarted", "socket_many_stalled_transfers"]},
@@ -191,7 +191,7 @@ REG = {
     },
     "C19": {
         "level": "exploration",
-        "technique": "property-based testing (rapid) with a path-fragment grammar: uploads with hostile announced names run against the default file handler inside a throw-away sandbox directory; oracle = walk of the sandbox (every new/modified path must lie under work/<phone>/, decoys unchanged)",
+        "technique": "property-based testing (rapid) with a path-fragment grammar: uploads with hostile announced names (and hostile alarm numbers / terminal IDs), announced in one or several 0x1210 messages, optionally repeated on a second connection, run against the default file handler inside a throw-away sandbox directory; oracle = walk of the sandbox (every new/modified path must lie under work/<phone>/, decoys unchanged)",
         "level_text": "Announced names are built from path fragments (.., ., /, leading /, repeated separators, backslashes, long names, names of decoy files planted outside the directory) and uploaded completely, partly or not at all through the real connection loop with the server's default FileEventer; afterwards the whole sandbox tree is compared with the allowed sub-tree.",
         "level_note": "The test process chdirs into the sandbox (one process per shard). file.log in the working directory is the handler's own log and is allowed. Rejecting or sanitising a name both pass.",
         "rule": "rapid names from a fragment grammar; non-trivial = the name contains a separator or a '..' component",
@@ -231,7 +231,7 @@ REG = {
     },
     "C12": {
         "level": "exploration",
-        "technique": "model-based testing of concurrent command histories (rapid scenarios in a child process: scripted terminals answering immediately / late / twice / with a wrong serial / never / out of order while 1..8 SendActiveMessage calls are outstanding; commands-model oracle over the history)",
+        "technique": "model-based testing of concurrent command histories (rapid scenarios in a child process: scripted terminals answering immediately / late / twice / with a wrong serial / never / out of order while 1..8 SendActiveMessage calls are outstanding, at most one of them with the connection's default timeout (answered after 1.1..2.3 s, or never); commands-model oracle over the history)",
         "level_text": "Each call must return exactly once; its command frame must appear exactly once, on the owning terminal's socket only, with a platform serial no other frame uses (all server frames on a connection are numbered consecutively); if the terminal answered that serial in time the returned message is that very response (bytes and PlatformSeq), never another call's; unanswered calls return the timeout error no earlier than the timeout and (soft) no later than timeout + 3 s; plain traffic sent in between is still answered.",
         "level_note": "0x1003 is excluded (its body carries no serial). At most 3 calls target one terminal at the same instant in this property (more is C13's stress). Timing-dependent verdicts are soft evidence (re-run, 2 of 3).",
         "rule": "rapid call sets x terminal behaviours; non-trivial = >= 2 calls outstanding on one terminal and (held responses released in reverse order or >= 3 calls)",
@@ -257,10 +257,10 @@ REG = {
     },
     "C18": {
         "level": "exploration",
-        "technique": "dynamic race detection under generated schedules: the C06/C12/C13 scenario generators run in a child built with -race; oracle = race reports (or concurrent-map fatal errors) naming a frame of the repository, de-duplicated by the pair of top repository frames",
+        "technique": "dynamic race detection under generated schedules: the C06/C12/C13 scenario generators, conversations during which an independent dispatcher sends commands to each key the moment it comes online, and the stalled-terminal scenario of C13 run in a child built with -race; oracle = race reports (or concurrent-map fatal errors) naming a frame of the repository, de-duplicated by the pair of top repository frames",
         "level_text": "Every scenario runs a live server under the Go race detector with several connections, pipelined frames, commands in flight and disconnect faults; any report whose stacks contain a repository frame is a violation (hard evidence even if the schedule cannot be reproduced; the report is the replay file's error text).",
         "level_note": "The detector sees only races that occur in an executed schedule; absence of a report is not absence of a race. User-callback code in the harness is synchronised and, under -race, parses only into fresh model values (sharing a model object between the read callback and the writer's ReplyBody is the callback author's choice).",
-        "rule": "rapid scenarios of three kinds; non-trivial = reader and writer of a connection demonstrably active together (a conversation, a command in flight, or a fault with q >= 1)",
+        "rule": "rapid scenarios of seven kinds; non-trivial = reader and writer of a connection demonstrably active together (a conversation, a command in flight, or a fault with q >= 1)",
         "assumptions": ["Go race detector (happens-before, executed schedules only)"],
         "required_buckets": {"any": ["scenario_c06", "scenario_c12", "scenario_c13"]},
         "parts": [
@@ -282,7 +282,7 @@ REG = {
     },
     "C20": {
         "level": "exploration",
-        "technique": "property-based testing (rapid) of the terminal simulator against the frame decoder, the reference decoder and the model parsers; differential test of ExpectedReply against the bytes a live server sends (child process); one 65 540-frame sequence per version for the serial wrap (thorough)",
+        "technique": "property-based testing (rapid) of the terminal simulator (with 0..3 neighbour simulators alive and used in between) against the frame decoder, the reference decoder and the model parsers; differential test of ExpectedReply against the bytes a live server sends (child process); one 65 540-frame sequence per version for the serial wrap (thorough)",
         "level_text": "For version in {2011, 2013, 2019} x phones of 1..12 (20) digits incl. phones whose template checksum is 0x7E/0x7D x sequences of 1..200 frames over all 24 default commands and custom bodies 0..1023: each frame must be accepted by Decode and by the reference decoder with that command ID, phone (modulo leading zeros), header layout of the version, serial = previous + 1; default bodies parse with the matching model type and re-encode byte-identically; custom bodies come back byte-identical. Live part: simulator frames of the reply-bearing commands sent as the n-th message of a connection must be answered with exactly ExpectedReply(n-1, frame).",
         "level_note": "Phones are decimal strings up to the field width (longer phones are outside the simulator's documented domain).",
         "rule": "rapid (version, phone, command sequence); non-trivial = phone shorter than the field (padding) or escaped template checksum, and >= 2 frames",
